@@ -123,6 +123,22 @@ Section WithDigest.
     let fw4 := fold_left fsave_step items (snd p) in
     (fst c, fst p, fw4).
 
+  Fixpoint fcheck_seq (fw : fworld) (os : list oid) : N * fworld :=
+    match os with
+    | [] => (0, fw)
+    | o :: r => let c := fcheck fw o in if fst c =? 0 then fcheck_seq (snd c) r else c
+    end.
+
+  Definition fxfer (fw : fworld) (v : bool) (items : list item) : list oid * list oid * fworld :=
+    let r := foids_exist fw (map it_oid items) in
+    let new := xfer_new (fst r) items in
+    match new with
+    | [] => ([], [], snd r)
+    | _ :: _ =>
+        let a := fadd (snd r) (Some v) new in
+        (filter (fun o => negb (mem_oid o (snd (fst a)))) (map it_oid new), snd (fst a), snd a)
+    end.
+
   (* one operation; the exception in flight is caught by the caller: outcome 98, flag cleared *)
   Definition settle (r : fworld * out) : fworld * out :=
     (FW (f_w (fst r)) (f_shard (fst r)) false, if f_abort (fst r) then ORes 98 else snd r).
@@ -138,6 +154,8 @@ Section WithDigest.
     | OCheckout o => let r := fcheckout fw o in settle (snd r, OCheckedOut (fst (fst r)) (snd (fst r)))
     | OCheckoutDir d ents =>
         let r := fcheckout_dir fw d ents in settle (snd r, OCheckedOutDir (fst (fst r)) (snd (fst r)))
+    | OCheckSeq os => let r := fcheck_seq fw os in settle (snd r, ORes (fst r))
+    | OXfer v items => let r := fxfer fw v items in settle (snd r, OXfered (fst (fst r)) (snd (fst r)))
     | _ => let r := step H (f_w fw) p in (with_w fw (fst r), snd r)
     end.
 
